@@ -428,7 +428,9 @@ pub fn boundary_shapes(rng: &mut Rng) -> Vec<Prob> {
     // a bound written as a second-order cone whose vector part is structurally zero
     // (what modelling layers emit when every coefficient of a norm term vanishes):
     // min p*x1 + x2  s.t. (x1 - q, 0, 0) in SOC(3), x2 >= r, x1 + x2 <= 10
-    for &(pp, q, r) in &[(0.1, 0.5, 0.1), (0.2, 1.0, 0.3), (0.3, 2.0, 0.5), (0.1, 1.5, 0.5)] {
+    let mut grid = vec![];
+    for &pp in &[0.1, 0.2, 0.3] { for &q in &[0.5, 1.0, 1.5, 2.0] { for &r in &[0.1, 0.3, 0.5] { grid.push((pp, q, r)); } } }
+    for &(pp, q, r) in grid.iter() {
         out.push(Prob { P: CscMatrix::zeros((2, 2)), q: vec![pp, 1.0],
             A: dense_to_csc(&[vec![-1.0, 0.0], vec![0.0, 0.0], vec![0.0, 0.0], vec![0.0, -1.0], vec![1.0, 1.0]], 5, 2),
             b: vec![-q, 0.0, 0.0, -r, 10.0], cones: vec![SecondOrderConeT(3), NonnegativeConeT(2)],
